@@ -174,6 +174,12 @@ type WaitGroup struct {
 	vc      VC
 }
 
+// Pending: the current counter (for the simulator's own use).
+func (w *WaitGroup) Pending() int {
+	w.ident()
+	return w.n
+}
+
 func (w *WaitGroup) ident() int {
 	if w.id == 0 || w.owner != S {
 		*w = WaitGroup{id: S.newObj(), owner: S}
